@@ -12,7 +12,7 @@ use crate::exch_run::{replay_exchange, run_exchanges};
 use crate::gen::*;
 use crate::refmodel::framing::{decide, Framing};
 
-pub const RULE: &str = "full product: request version {1.0,1.1} x request Connection {absent, close, keep-alive, keep-alive+close as two fields} x request kind {GET, HEAD, CONNECT (HTTP/1.1), POST with Content-Length, POST with Expect, GET carrying an Expect header, GET obtained by following a 302 of a POST (sent after the body, or instead of the 100)} x Expect outcome {100 received / late 100 after give-up, (GET: a stray 100 ahead of the final response), silent server + give-up, refused bare, refused with fields, refused with a first field line of 280 bytes} x response version {1.0,1.1} x status {200,204,205,300,304,404,302 and 399 with Location; 101 and 103 as bare answers to Expect} x response framing {none, Content-Length: 0, Content-Length: 3, chunked} x response Connection {absent, close, keep-alive, keep-alive+close, close preceded by an empty-valued field}; every cell explored through the real flow under all mixtures of whole-message and 1-byte arrivals (quick: whole-message arrivals + give-up at every point), verdict read in the Redirect state and in Cleanup; part b: every prefix, cut after the complete Location line, of 3xx heads with Connection / framing fields before and after the Location line (3 methods x 3 statuses x 7 x 4 field sets x every cut): whenever the library accepts such a prefix as a complete response (known finding KF1 of C05) the exchange must end must-close; part c: every cell twice more along the canonical schedule - by a caller that reads every body to its end and by one that proceeds as soon as the library allows it (a close-delimited body is then never read) - with a driver that judges nothing but the final verdict against the ground truth of the server script. part d: every status 200..=599 x {Content-Length: 0, Content-Length: 3, chunked; Content-Length: 3 also with Connection: keep-alive / close} on an otherwise reusable GET exchange along the canonical schedule (the status is no close condition). distinct = distinct (cell, final observation) pairs";
+pub const RULE: &str = "full product: request version {1.0,1.1} x request Connection {absent, close, keep-alive, keep-alive+close as two fields} x request kind {GET, HEAD, CONNECT (HTTP/1.1), POST with Content-Length, POST with Expect, GET carrying an Expect header, GET obtained by following a 302 of a POST (sent after the body, or instead of the 100)} x Expect outcome {100 received / late 100 after give-up, (GET: a stray 100 ahead of the final response), silent server + give-up, refused bare, refused with fields, refused with a first field line of 280 bytes} x response version {1.0,1.1} x status {200,204,205,300,304,404,302 and 399 with Location; 101 and 103 as bare answers to Expect} x response framing {none, Content-Length: 0, Content-Length: 3, chunked} x response Connection {absent, close, keep-alive, keep-alive+close, close preceded by an empty-valued field}; every cell explored through the real flow under all mixtures of whole-message and 1-byte arrivals (quick: whole-message arrivals + give-up at every point), verdict read in the Redirect state and in Cleanup; part b: every prefix, cut after the complete Location line, of 3xx heads with Connection / framing fields before and after the Location line (3 methods x 3 statuses x 7 x 4 field sets x every cut): whenever the library accepts such a prefix as a complete response (known finding KF1 of C05) the exchange must end must-close; part c: every cell twice more along the canonical schedule - by a caller that reads every body to its end and by one that proceeds as soon as the library allows it (a close-delimited body is then never read) - with a driver that judges nothing but the final verdict against the ground truth of the server script. part d: every status 200..=599 x {Content-Length: 0, Content-Length: 3, chunked; Content-Length: 3 also with Connection: keep-alive / close} on an otherwise reusable GET exchange along the canonical schedule (the status is no close condition); 200 / 302 / 404 also behind an interim 103 that is handed out first, with every framing incl. close-delimited. distinct = distinct (cell, final observation) pairs";
 
 const LONG_WHY: &str = "the-upload-is-not-wanted-here-because-of-a-policy-that-takes-a-very-long-sentence-to-explain-and-then-some-more-words-to-get-beyond-two-hundred-and-fifty-six-bytes-in-a-single-header-field-line-which-is-entirely-legal-if-unusual-0123456789-0123456789-0123456789-0123456789";
 
@@ -296,12 +296,14 @@ fn canonical_verdict(cfg: &ExchCfg, lazy: bool) -> Result<Option<String>, String
                 let mut tries = 0;
                 loop {
                     tries += 1;
-                    if tries > 4 {
+                    if tries > 6 {
                         return Err("no response".into());
                     }
                     let (n, resp) = r.try_response(&stream[off..]).map_err(|e| format!("try_response: {:?}", e))?;
                     off += n;
-                    if resp.is_some() && r.can_proceed() {
+                    // an interim response (1xx other than 101) is handed out; the caller asks again for the final one
+                    let interim = resp.as_ref().map(|x| x.status().is_informational() && x.status().as_u16() != 101).unwrap_or(false) && off < stream.len();
+                    if resp.is_some() && r.can_proceed() && !interim {
                         break;
                     }
                     if n == 0 {
@@ -381,6 +383,25 @@ fn status_cells() -> Vec<Arc<ExchCfg>> {
                 let fm = final_msg("GET", "1.1", status, &extra, &body);
                 let cfg = ExchCfg::new("C10", rs.cfg.clone(), rs.body.clone(), server(fm, None, Gate::AfterBody), b"HTTP/1.1 200 OK\r\n\r\n".to_vec(), Menu::default_large()).expect("cfg");
                 out.push(Arc::new(cfg));
+                if matches!(status, 200 | 404 | 302) && sconn.is_empty() {
+                    // an interim 103 handed out first; the final response delimited by a length, by chunks or by the close
+                    for fr2 in [fr, "none"] {
+                        let body = match fr2 {
+                            "cl0" => BodySpec::Length(vec![]),
+                            "cl3" => BodySpec::Length(b"abc".to_vec()),
+                            "none" => BodySpec::NoHeader(b"xyz".to_vec()),
+                            _ => BodySpec::Chunked { chunks: vec![b"abc".to_vec()], ext: false, trailers: 0 },
+                        };
+                        let fm = final_msg("GET", "1.1", status, &extra, &body);
+                        let close = fr2 == "none" && status != 302;
+                        let early = ServerMsg { msg: RespMsg::new("1.1", 103, "Early Hints").field("Link", "</s.css>; rel=preload"), gate: Gate::AfterBody };
+                        let mut srv = vec![early];
+                        srv.extend(server(fm, None, Gate::AfterBody));
+                        if let Ok(cfg) = ExchCfg::new("C10", rs.cfg.clone(), rs.body.clone(), srv, if close { vec![] } else { b"HTTP/1.1 200 OK\r\n\r\n".to_vec() }, Menu::default_large()) {
+                            out.push(Arc::new(cfg));
+                        }
+                    }
+                }
             }
         }
     }
